@@ -20,6 +20,8 @@
 package filter
 
 import (
+	"fmt"
+
 	"github.com/alecthomas/participle/v2"
 )
 
@@ -32,3 +34,44 @@ var DefaultParserOptions = []participle.Option{
 var Parser = participle.MustBuild[Filter](
 	DefaultParserOptions...,
 )
+
+// MaxNesting is the deepest parenthesis nesting Parse accepts.
+const MaxNesting = 1000
+
+// Parse parses a filter expression supplied by a client. The grammar is parsed
+// by recursive descent, so unbounded parenthesis nesting would exhaust the
+// goroutine stack, which is fatal to the whole process; expressions nested
+// deeper than MaxNesting are rejected with an error instead.
+func Parse(name, text string) (*Filter, error) {
+	if err := checkNesting(text); err != nil {
+		return nil, err
+	}
+	return Parser.ParseString(name, text)
+}
+
+func checkNesting(text string) error {
+	depth := 0
+	var quote byte
+	for i := 0; i < len(text); i++ {
+		ch := text[i]
+		switch {
+		case quote != 0:
+			if ch == '\\' && quote == '"' {
+				i++
+			} else if ch == quote {
+				quote = 0
+			}
+		case ch == '"' || ch == '`':
+			quote = ch
+		case ch == '(':
+			if depth++; depth > MaxNesting {
+				return fmt.Errorf("filter is nested deeper than %d levels", MaxNesting)
+			}
+		case ch == ')':
+			if depth > 0 {
+				depth--
+			}
+		}
+	}
+	return nil
+}
